@@ -1189,6 +1189,11 @@ func cleanFlagConditions(fcs *[]FlagCondition) bool {
 		forbidden  []uint64
 	}
 	infos := []forbiddenFlagValues(nil)
+	// only bits that occur in some mask can matter, enumerate those instead of all 65536 values
+	allMask := uint16(0)
+	for _, fc := range *fcs {
+		allMask |= fc.Mask
+	}
 next_fc:
 	for _, fc := range *fcs {
 		sort.Strings(fc.SubQueries)
@@ -1205,11 +1210,11 @@ next_fc:
 			continue
 		}
 		forbidden := make([]uint64, 0x10000/64)
-		for v := uint16(0); ; v++ {
+		for v := allMask; ; v = (v - 1) & allMask {
 			if v&fc.Mask == fc.Value {
 				forbidden[v/64] |= 1 << (v % 64)
 			}
-			if v == math.MaxUint16 {
+			if v == 0 {
 				break
 			}
 		}
@@ -1238,7 +1243,10 @@ next_fc:
 		mask := uint16(0)
 		for bit := 0; bit < 16; bit++ {
 			m := uint16(1 << bit)
-			for v := ^m; ; v = (v - 1) & ^m {
+			if allMask&m == 0 {
+				continue
+			}
+			for v := allMask &^ m; ; v = (v - 1) & (allMask &^ m) {
 				f1 := 1 & (info.forbidden[v/64] >> (v % 64))
 				f2 := 1 & (info.forbidden[(v^m)/64] >> ((v ^ m) % 64))
 				if f1 != f2 {
